@@ -176,7 +176,7 @@ func (x *planExec) runRequest(t *Task, op *Op) *OpResult {
 		if op.Transport != nil {
 			return w.DoPipe(t, method, path, op.BodyBytes(), op.Transport, op.Inject, &x.out.Stats)
 		}
-		return w.DoHTTP(t, method, path, op.BodyBytes(), op.Inject)
+		return w.DoHTTPct(t, method, path, op.BodyBytes(), op.Inject, op.CType)
 	case "lib":
 		var h interface{}
 		if op.Resubmit != "" {
